@@ -480,6 +480,9 @@ class Interp:
                         in_loop |= source.assigned_names(l.body) | source.assigned_names([l])
                     if e.id not in in_loop:
                         raise PyRaise(ExcVal(UnboundLocalError, tag='unbound-local:' + e.id))
+                elif self.env.parent is None:
+                    # assigned nowhere in the function, not a global, not a builtin: CPython raises NameError
+                    raise PyRaise(ExcVal(NameError, tag='undefined-name:' + e.id))
             raise
 
     def ev_Tuple(self, e):
@@ -1403,6 +1406,15 @@ def exc_matches(exc, handler_cls):
     if issubclass(handler_cls, exc.base):
         return None
     return False
+
+
+def spec_matches(exc, spec_cls):
+    """does a `raises` clause of a CONTRACT admit this exception?  Like exc_matches, except that a catch-all clause
+    (Exception / BaseException: "may fail for reasons of the environment") never admits the exceptions CPython raises
+    for a fault of the function's own code - an unbound local or name"""
+    if exc.cls is not None and issubclass(exc.cls, NameError) and spec_cls in (Exception, BaseException):
+        return False
+    return exc_matches(exc, spec_cls)
 
 
 def _int_set_membership(x, items):
